@@ -120,7 +120,7 @@ func c03Cases(tier string, seed uint64, flavor string) []lib.Case {
 	nfam, lags, dmg, maxK := 3, []int{0, 1}, 2, 24
 	comps := []lib.Comp{{Algo: "none"}, {Algo: "gzip", Quality: 1}, {Algo: "brotli", Quality: 1}}
 	if tier == "thorough" {
-		nfam, lags, dmg, maxK = 10, []int{0, 1, 3, -1}, 5, 60
+		nfam, lags, dmg, maxK = 20, []int{0, 1, 3, -1}, 5, 60
 		comps = lib.FastComps()
 	}
 	for f := 0; f < nfam; f++ {
